@@ -11,6 +11,17 @@ PROPS = {
         "assumptions": ["dispersion accuracy of wavenuma (0.1 percent) is a numeric statement and is not decided here; "
                         "only the Chen-Thomson formula itself is proved", "float32 inputs are decided as reals"],
     },
+    "C02": {
+        "level": "proof",
+        "engines": [{"kind": "pyse"}],
+        "explanation": "_peak is proved to return the first index of the largest interior strict local maximum (0 if none) for "
+        "all array lengths and values; the scalar kernels tp/tps/dpm/dp/dpspr are proved against their definitions (tps: vertex of the "
+        "three-point parabola, strictly between the neighbour periods); the xrstats wrappers and accessor methods are proved to "
+        "evaluate every peak statistic at that same index, per position, NaN exactly when there is no peak.",
+        "trusted_base": ["numpy/xarray operation contracts in engine/pyse (argmax = first index of maximum, concat, diff, where, apply_ufunc(vectorize) = per-position application)"],
+        "assumptions": ["alpha: only absence of exceptions on all paths is proved for all inputs; its value is checked against the window-mean definition on concrete replays only (bounded)",
+                        "float32 casts of the returned values are identities"],
+    },
 }
 
 _PENDING = "not yet brought under contract in the current build round (see DESIGN.md section 8 for the order of work)"
